@@ -7,15 +7,18 @@ from . import common
 from . import stft_common as sc
 
 PROP = "C01"
-MODULES = ["PdsVerif.Props.StftTie", "PdsVerif.Props.C01", "PdsVerif.Props.C03"]  # C03 holds the short-integration streaming theorems si_stream_*
+MODULES = ["PdsVerif.Props.StftTie", "PdsVerif.Props.SiTie", "PdsVerif.Props.C01", "PdsVerif.Props.C03"]  # C03 holds the short-integration streaming theorems si_stream_*
 MODEL_MODULES = ["PdsVerif.Model.StftDrv", "PdsVerif.Model.Si"]
 REQUIRED = ["PdsVerif.StftTie." + n for n in ["full_pad_left_eq", "full_short_eq", "full_num_frames_eq", "full_pad_right_eq", "fin_pad_left_eq", "fin_num_frames_eq", "chunk_frame_length_eq", "chunk_num_frames_eq", "chunk_first_pad_eq", "torch_arith_eq_numpy", "torch_no_frame_eq"]] + ["PdsVerif.C01." + n for n in ["stft_stream_eq_full", "stft_fbf_eq_full", "stft_features_stream_eq_full", "stft_full_frames_length", "stft_full_count", "stft_state_canonical", "stft_raw_stream_eq_full"]] + [
-    "PdsVerif.C03." + n for n in ["si_stream_eq_full", "si_stream_eq_spec", "si_stream_chunk", "overlap_save_valid", "accumulate_spec"]]
+    "PdsVerif.C03." + n for n in ["si_stream_eq_full", "si_stream_eq_spec", "si_stream_chunk", "overlap_save_valid", "accumulate_spec"]] + ["PdsVerif.SiTie." + n for n in ["reset_x_rem_eq", "reset_y_rem_eq", "reset_skip_eq", "reset_started_eq", "reset_zeroes_eq", "valid_eq", "num_raw_eq", "num_frames_eq", "num_processed_eq", "num_dfts_eq", "x_rem_after_eq", "chunkCore_bookkeeping", "fin_buf_len_eq", "fin_num_frames_eq", "fin_pad_right_eq", "finalize_eq_gen"]]
 
 def translate(repo):
     """framing arithmetic of compute.py / torch.py -> Generated/StftConsts.lean (theorems: Props/StftTie.lean)"""
-    from .translate import stftconsts
-    return stftconsts.generate(repo)
+    from .translate import stftconsts, siconsts
+    files = dict(stftconsts.generate(repo))
+    # the SI computer's integer bookkeeping -> Generated/SiConsts.lean (Props/SiTie.lean)
+    files.update(siconsts.generate(repo))
+    return files
 
 
 RULE = (
